@@ -176,6 +176,7 @@ NOT_APPLICABLE = {
  "C11": "Contract dispatch is emitted as Sway source text by format! templates; its correctness is a run-time fact about generated text, with no resolved program to analyse.",
  "C14": "Exactness of the usefulness algorithm over pattern matrices is algorithmic correctness over run-time values; the only structural content (Pattern variant coverage) is already enforced by rustc.",
  "C18": "Idempotence f(f(x))=f(x) depends on width heuristics and comment placement; no necessary structural clause exists.",
+ "C17": "Panic-freedom of the whole compile pipeline: the cone of compile_to_asm has thousands of unwrap/expect/index/unreachable sites whose unreachability rests on type-checker invariants not visible in the shape of the code; the local-guard discharge that decides C16/C21/C23 leaves them open, and a reviewed-site table of that size would be a frozen list, not a decision.",
  "C27": "Agreement of std collections / wide arithmetic with reference models quantifies over run-time histories and values of Sway library code.",
  "C28": "Storage collections vs models quantifies over run-time histories; its one structural clause (storage domain separation) is decided under C12.",
 }
